@@ -19,6 +19,7 @@ import (
 	"verif/sim"
 	"verif/simrt"
 	"verif/simtest/c03"
+	"verif/simtest/c07"
 	. "verif/simtest/env"
 	"verif/simtest/syssim"
 )
@@ -101,6 +102,11 @@ func gen(p *simrt.Tape) any {
 			pl.Faults = map[string][]Outcome{}
 		}
 		pl.Faults["bn1/AttestationData!"] = []Outcome{{Kind: "blackhole"}}
+	}
+	// a beacon committee subscriber whose duties requests are answered very late: a request unrelated to
+	// attesting that is outstanding while attestation jobs run
+	if sublate := p.Pct(30); sublate || os.Getenv("C20_SUBLATE") != "" { // C20_SUBLATE: developer aid
+		pl.SubDutiesLatency = slot * 5 / 2
 	}
 	return pl
 }
@@ -273,7 +279,7 @@ func checkPending(rec *syssim.Record, live *syssim.Incarnation, cur uint64, out 
 	inflight := false
 	simrt.Crit(func() {
 		for _, f := range rec.H.Fetches {
-			if f.Inc == live.N && f.EndStep == 0 {
+			if f.Inc == live.N && f.EndStep == 0 && f.Kind != "attester-sub" {
 				inflight = true
 			}
 		}
@@ -364,6 +370,31 @@ func checkPending(rec *syssim.Record, live *syssim.Incarnation, cur uint64, out 
 		}
 	}
 	out.Probes["pending-check-points"]++
+	// "... waits for in-flight attestations and for nothing else": a slot whose attestation process returned more
+	// than a slot ago (its attestations were submitted or given up) is no longer pending, whatever other requests
+	// (subscriptions, duties) are outstanding.  Not judged when goroutines are stalled on purpose.
+	if pl.StallAfterSchedulePct == 0 {
+		var invs []*syssim.Invocation
+		simrt.Crit(func() { invs = append(invs, rec.Invocations...) })
+		for _, inv := range invs {
+			if inv.Kind != "attest" || inv.Inc != live.N || inv.EndStep == 0 || inv.EndT+slotDur > simrt.Now() || state[inv.Slot] > 1 {
+				continue
+			}
+			unstarted := false
+			for _, in := range all {
+				if in.slot == inv.Slot && !in.started && !in.withdrawn {
+					unstarted = true
+				}
+			}
+			if unstarted {
+				continue
+			}
+			out.Probes["pending-after-attesting-checked"]++
+			if live.Sys.Controller.HasPendingAttestations(context.Background(), phase0.Slot(inv.Slot)) {
+				return Viol("C20/pending-mark-long-after-attesting", "at %v (slot %d) HasPendingAttestations(%d) is still true although the attestation process of that slot returned at %v, more than a slot ago: a shutdown requested now would wait for something other than an in-flight attestation", simrt.Now(), cur, inv.Slot, inv.EndT)
+			}
+		}
+	}
 	return nil
 }
 
@@ -410,6 +441,11 @@ func execPending(plan any, sched *simrt.Tape) *sim.Outcome {
 }
 
 func init() {
+	// the goroutines the strategies start: none may outlive its call, the timeout and the nodes' answers
+	for _, sc := range c07.LeakScenarios("C20") {
+		sc.Weight = 10 // these runs cost well under a millisecond each; a long run costs seconds
+		sim.Register(sc)
+	}
 	sim.Register(&sim.Scenario{Property: "C20", Name: "longrun", Gen: gen, Exec: exec, Weight: 1})
 	sim.Register(&sim.Scenario{Property: "C20", Name: "pending-marks", Exec: execPending, Weight: 3, Gen: func(p *simrt.Tape) any {
 		pl := c03.Gen(false)(p).(*syssim.Plan)
